@@ -19,7 +19,7 @@ func init() {
 	core.Register(&core.Check{
 		ID:    "C05",
 		Level: "exploration",
-		Rule: "E-proc: histories that leave events and/or an error pending (burst larger than the buffer, rename-then-delete / rename-then-rmdir of watched files and directories with the reader held back, delete of a watched directory with contents, many watches, moves in from / out to / within with unmatched halves, watches spelled relative to the working directory that are then deleted/renamed, a real queue overflow with the consumer gated until the burst is complete and the control calls started only once the reader has reached the overflow record) " +
+		Rule: "E-proc: histories that leave events and/or an error pending (burst larger than the buffer, rename-then-delete / rename-then-rmdir of watched files and directories with the reader held back, delete of a watched directory with contents, many watches, moves in from / out to / within with unmatched halves, watches spelled relative to the working directory that are then deleted/renamed, a recursive watch (not yet public; switched on through the hook) under which directories are created and removed again before the reader registers them, a real queue overflow with the consumer gated until the burst is complete and the control calls started only once the reader has reached the overflow record) " +
 			"x consumer behaviour {both channels, only Events, only Errors, neither, stops after k} x buffer {default,0,1,64,4096}; then a battery of control calls (Add of a new path, WatchList, Remove, 1-8 concurrent Close with Add/Remove/WatchList racing them, Close twice) each under a watchdog, with PRNG delays injected at the verif yield points. " +
 			"Structural oracle: the lock probe at every send must find the Watcher's lock free (or held by a tracked API call); behavioural oracle: a control call that has not returned at the watchdog is a violation only when the goroutine dump shows the deadlock signature (a send parked below handleEvent/AddWith with the lock held and the call parked in Mutex.Lock; or the call parked on a channel/condition while the reader is parked in a send nobody receives; or - same state in two dumps 2 s apart - a goroutine running inside a lock-holding function while the call waits for the lock). " +
 			"distinct_nontrivial = distinct (history shape, consumer, buffer) cases in which >=1 send was probed",
@@ -31,7 +31,7 @@ func init() {
 	})
 }
 
-var c05shapes = []string{"burst", "rename-then-delete", "rename-then-rmdir", "delete-dir-with-contents", "many-watches", "overflow", "rename-delete-many", "moves-in-out-within", "relative-paths"}
+var c05shapes = []string{"burst", "rename-then-delete", "rename-then-rmdir", "delete-dir-with-contents", "many-watches", "overflow", "rename-delete-many", "moves-in-out-within", "relative-paths", "recursive-mkdir-rmdir"}
 var c05consumers = []string{"both", "only-events", "only-errors", "neither", "stops-after-k"}
 
 func runC05(c *core.Ctx) {
@@ -71,6 +71,15 @@ func c05Case(c *core.Ctx, rng *rand.Rand, dir string, idx int, a *apiTrack, st *
 	cons := c05consumers[rng.Intn(len(c05consumers))]
 	if shape == "overflow" { // the reader must get as far as the overflow record: Events is drained
 		cons = []string{"only-events", "both"}[(c.Batch/4)%2]
+	}
+	if shape == "recursive-mkdir-rmdir" {
+		// the (not yet public) recursive watch registers new directories from the reader goroutine;
+		// a directory that is gone again by then makes that fail: an error becomes pending
+		fsnotify.VerifSetRecurse(true)
+		defer fsnotify.VerifSetRecurse(false)
+		if rng.Intn(2) == 0 {
+			cons = "only-events"
+		}
 	}
 	buf := []int{-1, 0, 1, 64, 4096}[rng.Intn(5)]
 	params := fmt.Sprintf("shape=%s consumer=%s buffer=%d", shape, cons, buf)
@@ -241,6 +250,19 @@ func c05Case(c *core.Ctx, rng *rand.Rand, dir string, idx int, a *apiTrack, st *
 				os.Rename(b, filepath.Join(d, fmt.Sprint("w", k))) // within
 			case 1:
 				os.Rename(b, filepath.Join(un, fmt.Sprint("out", k))) // out: unmatched IN_MOVED_FROM
+			}
+		}
+		time.Sleep(time.Duration(rng.Intn(3)) * time.Millisecond)
+	case "recursive-mkdir-rmdir":
+		c.Count("pending_error_histories", 1)
+		rt := filepath.Join(base, "rt")
+		os.MkdirAll(filepath.Join(rt, "keep"), 0o755)
+		api("Add(rt/...)", func() error { return w.Add(filepath.Join(rt, "...")) })
+		for k := 0; k < 20+rng.Intn(60); k++ {
+			p := filepath.Join(rt, []string{"", "keep"}[rng.Intn(2)], fmt.Sprint("n", k))
+			os.Mkdir(p, 0o755)
+			if rng.Intn(4) > 0 {
+				os.Remove(p) // gone before the reader gets to register it
 			}
 		}
 		time.Sleep(time.Duration(rng.Intn(3)) * time.Millisecond)
